@@ -40,6 +40,17 @@ func newExecCaseG(r *rand.Rand, so gen.SchemaOpts, do gen.DocOpts, gopt gen.Grap
 	return c
 }
 
+// newExecCaseS is newExecCaseG over a given schema.
+func newExecCaseS(r *rand.Rand, s *model.Schema, do gen.DocOpts, gopt gen.GraphOpts) *execCase {
+	c := &execCase{S: s}
+	c.SDL = c.S.SDL(model.SDLOpts{})
+	c.G = gen.Graph(r, c.S, gopt)
+	c.DC = gen.Doc(r, c.S, do)
+	c.Layout = r.Intn(model.LayoutCount)
+	c.Text = c.DC.Doc.Print(model.LayoutN(c.Layout))
+	return c
+}
+
 func (c *execCase) replay(kind string, opName string, extra map[string]interface{}) map[string]interface{} {
 	m := map[string]interface{}{"backend": kind, "sdl": c.SDL, "document": c.Text, "op": opName, "vars": c.DC.Vars,
 		"features": featKey(c.DC.Feats), "graph": describeGraph(c.G)}
@@ -93,6 +104,14 @@ func runC01(c *run.Ctx) {
 		// reflection fields cannot observe arguments: no echo fields in schemas served by reflection
 		ec := newExecCaseG(r, gen.SchemaOpts{Args: !refl, Mutation: true, Abstract: kind == "reflect" && i%2 == 0},
 			gen.DocOpts{Frags: true, Dirs: true, Vars: true, Aliases: true, Mutation: true, Depth: 2 + r.Intn(3), DupKeys: i%3 == 0, Abstract: kind == "reflect" && i%2 == 0}, gen.GraphOpts{TypedNil: 4})
+		if i%10 == 3 {
+			// one field node under several concrete types: covariant interface fields, heterogeneous abstract lists
+			kind = "reflect"
+			refl = true
+			ec = newExecCaseS(r, gen.Menagerie(r), gen.DocOpts{Frags: true, Dirs: i%20 == 3, Vars: i%20 == 3, Aliases: true, Depth: 3 + r.Intn(2), DupKeys: i%3 == 0, Abstract: true},
+				gen.GraphOpts{NullProb: 5, PerType: 2 + r.Intn(2)})
+			c.Bucket("doc_features", "menagerie-covariant")
+		}
 		if i%16 == 7 {
 			// a deep chain through a non-null, self-referential field: valid and below MaxResolveDepth (100)
 			depth := 40 + r.Intn(50)
